@@ -146,6 +146,77 @@ def s3_counter(ctx, rid, fx, cls, counter, handshake, what=""):
     return len(asg)
 
 
+def s_range(ctx, rid, fx, cls, reg):
+    """Occupancy register `reg`, declared Signal(max=M), i.e. able to hold 0..M-1 only: every sync update reg <= reg + d happens
+    under a guard that entails comparisons of `reg` against thresholds which keep reg + d inside [0, M-1] (linear forms over the
+    constructor's positive parameters).  Overflow wraps the occupancy -- a buffer full of accepted tokens vanishes, valid drops."""
+    from . import lin
+    d = fx.decl.get(reg)
+    M = None
+    if d and d[0] == "Signal":
+        for k in d[1].keywords:
+            if k.arg == "max":
+                M = lin.linform(k.value)
+    ctx.ob(rid, fx.rel, cls, f"{reg}: declared with max=", M is not None, f"`{reg}` is not a Signal(max=..) any more", 0)
+    if M is None:
+        return 0
+    n = 0
+    for a in fx.find(domain="sync", target=reg):
+        delta = lin.sub(lin.linform(a.value), {reg: 1})
+        if reg in delta:
+            ctx.ob(rid, fx.rel, cls, f"{reg} <= {short(a.v, 50)}", False, f"not of the form {reg} + d", a.line)
+            continue
+        inl = q.Inliner(fx, a)
+        G = inl.gformula(a)
+        ups, los = [], []
+        for at in sorted(B.atoms(G)):
+            try:
+                e = ast.parse(at, mode="eval").body
+            except SyntaxError:
+                continue
+            if not (isinstance(e, ast.Compare) and len(e.ops) == 1):
+                continue
+            op0 = type(e.ops[0])
+            if norm(e.left) == reg:
+                T = lin.linform(e.comparators[0])
+            elif norm(e.comparators[0]) == reg:
+                T = lin.linform(e.left)
+                op0 = {ast.Lt: ast.Gt, ast.LtE: ast.GtE, ast.Gt: ast.Lt, ast.GtE: ast.LtE}.get(op0)
+            else:
+                continue
+            if reg in T:
+                continue
+            for pol in (True, False):
+                f = B.A(at) if pol else B.Not(B.A(at))
+                if not B.entails(G, f):
+                    continue
+                op = op0
+                if not pol:
+                    op = {ast.Lt: ast.GtE, ast.LtE: ast.Gt, ast.Gt: ast.LtE, ast.GtE: ast.Lt}.get(op)
+                if op is ast.Lt:
+                    ups.append(lin.sub(T, lin.const(1)))
+                elif op is ast.LtE:
+                    ups.append(T)
+                elif op is ast.GtE:
+                    los.append(T)
+                elif op is ast.Gt:
+                    los.append(lin.add(T, lin.const(1)))
+        # upper: U + d <= M - 1 ; lower: L + d >= 0   (with the implicit bounds reg <= M-1 and reg >= 0)
+        ups.append(lin.sub(M, lin.const(1)))
+        los.append({})
+        hi = any(lin.sign(lin.sub(lin.add(U, delta), lin.sub(M, lin.const(1)))) in (-1, 0) for U in ups)
+        lo = any(lin.sign(lin.add(L, delta)) in (1, 0) for L in los)
+        n += 1
+        ctx.ob(rid, fx.rel, cls, f"{reg} {'+' if lin.sign(delta) == 1 else ''}{lin.show(delta)}: stays <= max-1", hi,
+               "" if hi else f"`{reg}` takes {short(a.v, 40)} under {short(B.show(G))}; entailed upper bounds on {reg}: "
+                             f"{[lin.show(u) for u in ups]}; none gives {reg} + ({lin.show(delta)}) <= {lin.show(lin.sub(M, lin.const(1)))}: "
+                             f"the register wraps and accepted tokens vanish", a.line)
+        ctx.ob(rid, fx.rel, cls, f"{reg} {'+' if lin.sign(delta) == 1 else ''}{lin.show(delta)}: stays >= 0", lo,
+               "" if lo else f"`{reg}` takes {short(a.v, 40)} under {short(B.show(G))}; entailed lower bounds on {reg}: "
+                             f"{[lin.show(u) for u in los]}; none gives {reg} + ({lin.show(delta)}) >= 0: the register underflows", a.line)
+    return n
+
+
 def depends(ctx, rid, fx, cls, role, formula_path_or_expr, atoms_needed, context=None, is_path=True):
     """The inlined formula semantically depends on each listed atom."""
     inl = q.Inliner(fx, context)
@@ -196,6 +267,49 @@ def fsm_sanity(ctx, rid, fx, cls):
         ctx.analysed["paths"] += nconf
         ctx.ob(rid, fx.rel, cls, f"fsm:{info.name}", not problems, "; ".join(d for _, d in problems[:4]), info.node)
         n += 1
+    return n
+
+
+def fsm_txn_state(ctx, rid, fx, cls, persistent=None):
+    """Per-transaction FSM state is not inherited by the next transaction.  A register that a non-reset state accumulates into
+    (its new value or its guard mentions the register itself: counters, sticky error latches) or raises as a flag (constant 1)
+    is either re-initialised unconditionally in the FSM's reset state (which every new transaction starts from), or cleared
+    unconditionally in every successor state of each state that accumulates.  `persistent`: {register: reason} kept on purpose."""
+    persistent = persistent or {}
+    n = 0
+    for fid, info in fx.fsms.items():
+        rs = info.reset_state or info.first_state
+        edges = {}
+        for cfg in q.fsm_configs(fx, info):
+            _, e = q.fsm_graph(fx, info, cfg)
+            for a_, bs in e.items():
+                edges.setdefault(a_, set()).update(bs)
+        regs = {}
+        for a in fx.find(domain="sync"):
+            if a.state and a.state[0] == fid:
+                regs.setdefault(a.t, []).append(a)
+        for r, asg in sorted(regs.items()):
+            if r in persistent:
+                continue
+            acc = [x for x in asg if x.state[1] != rs and (r in q.paths(x.value) or any(r in q.paths(c) for c, _ in x.guards) or x.v == "1")]
+            if not acc:
+                continue
+            plain = lambda x: not x.guards and r not in q.paths(x.value)
+            init = [x for x in asg if x.state[1] == rs and plain(x)]
+            ok = bool(init)
+            how = f"re-initialised in {rs}"
+            if not ok:
+                ok = True
+                for S in sorted({x.state[1] for x in acc}):
+                    succ = edges.get(S, set()) - {S}
+                    if not succ or not all(any(x.state[1] == T and plain(x) for x in asg) for T in succ):
+                        ok = False
+                how = "cleared in every successor of the accumulating states"
+            n += 1
+            ctx.ob(rid, fx.rel, cls, f"{r}: {how if ok else 're-initialised between transactions'}", ok,
+                   "" if ok else f"`{r}` is accumulated in {sorted({x.state[1] for x in acc})} ({short(acc[0].v, 30)} under {short(acc[0].gtext(), 60)}) "
+                                 f"but is neither set unconditionally in the reset state {rs} nor cleared in every successor state: what one "
+                                 f"transaction left there (an error response, a count, a done flag) is inherited by the next", acc[0].line)
     return n
 
 
